@@ -70,7 +70,7 @@ def nf(tp) -> str:
             ded.append(a)
     if len(ded) == 1 and not has_none:
         return ded[0]
-    return "{" + ";".join(ded + (["None"] if has_none else [])) + "}"
+    return "{" + ";".join(sorted(ded) + (["None"] if has_none else [])) + "}"
 
 
 def _alts(tp):
@@ -221,7 +221,7 @@ def triggers(d) -> list[str]:
 
     def optional_member(n):
         # a node whose own hint is wrapped in Optional[...]: flagged, a nullable reference, or a union with a None member
-        return (n["opt"] or (n["ref"] and n["ref"]["nullable"]) or (n["ty"] == "" and len(n["kids"]) > 1 and any(k["ty"] == "None" or optional_member(k) for k in n["kids"]))) and n["ty"] != "Any"
+        return (n["opt"] or (n["ref"] and n["ref"]["nullable"]) or (n["ty"] == "" and len(n["kids"]) > 1 and any(k["ty"] == "None" or optional_member(k) for k in n["kids"]))) and not (n["ty"] == "Any" and not (n["list"] or n["set"] or n["dict"]))
 
     def passes_optional(n):
         # the hint of n starts with Optional[...] or is n's single child's hint that does
@@ -625,7 +625,7 @@ def run(ck: Check) -> None:
     ]
     campaign_isspace(ck)
     campaign_strings(ck, 1500 if quick else 20000)
-    campaign_trees(ck, 900 if quick else 6000, 300 if quick else 3000, thorough=not quick)
+    campaign_trees(ck, 1500 if quick else 6000, 400 if quick else 3000, thorough=not quick)
     campaign_field(ck, 600 if quick else 6000)
     ck.search_hooks.append(search_trees)
     known_findings(ck)
